@@ -69,4 +69,18 @@ pub fn vp_drain<V>(m: &mut IntMap<V>) -> (r: Vec<V>)
     ensures final(m)@ == Map::<u64, V>::empty(), r@.len() == drain_keys(old(m)@).len(),
         forall|i: int| 0 <= i < r@.len() ==> old(m)@.contains_key(#[trigger] drain_keys(old(m)@)[i]) && r@[i] == old(m)@[drain_keys(old(m)@)[i]]
 { unimplemented!() }
+/// `m.keys().filter(|k| **k > x).collect()` followed by `sort()` (dependency + std, ASSUMED): the keys above x in ascending order
+#[verifier::external_body]
+pub fn vp_sorted_keys_gt<V>(m: &IntMap<V>, x: u64) -> (r: Vec<u64>)
+    ensures forall|i: int, j: int| 0 <= i < j < r@.len() ==> r@[i] < r@[j],
+        forall|i: int| 0 <= i < r@.len() ==> (#[trigger] r@[i]) > x && m@.contains_key(r@[i]),
+        forall|k: u64| m@.contains_key(k) && k > x ==> r@.contains(k)
+{ unimplemented!() }
+/// `m.keys().filter(|k| **k < x).collect()` followed by `sort()` and `reverse()`: the keys below x in descending order
+#[verifier::external_body]
+pub fn vp_sorted_keys_lt_desc<V>(m: &IntMap<V>, x: u64) -> (r: Vec<u64>)
+    ensures forall|i: int, j: int| 0 <= i < j < r@.len() ==> r@[i] > r@[j],
+        forall|i: int| 0 <= i < r@.len() ==> (#[trigger] r@[i]) < x && m@.contains_key(r@[i]),
+        forall|k: u64| m@.contains_key(k) && k < x ==> r@.contains(k)
+{ unimplemented!() }
 } // mod intmap
